@@ -275,7 +275,9 @@ def register(R):
       f'{TR}::TreeMapView.set', P, variant='two-keys', when=lambda it, a, k: isinstance(a[1], VTuple) and len(a[1].items) == 2,
       types=dict(self='TreeMapView', keys='tuple[keypath,keypath]', values='tuple[tree,tree]', in_place='bool'), ret='TreeMapView',
       ghost={'S0': 'region'}, site_ghost=region, modifies=['theap'],
-      requires=SET_REQ + ['not in_place', 'in_region(S0, values[0])', 'in_region(S0, values[1])'], may_raise=RAISES,
+      requires=SET_REQ + ['not in_place', 'in_region(S0, values[0])', 'in_region(S0, values[1])'],
+      # no spurious failure: two one-key paths that a dict root accepts are set without an error (aligned keys and values)
+      raises_ensures={e: ['not (t_kind(self.data) == 1 and plain_path(keys[0]) and plain_path(keys[1]) and old(one_step_ok(self.data, keys[0])) and old(one_step_ok(self.data, keys[1])))'] for e in RAISES},
       ensures=['frame_ok()', 'region_ok(grown(S0))', 'in_region(grown(S0), result.data)', 'self.data is old(self.data)',
                # values are aligned with the keys: the last key reads back the last value
                'implies(plain_path(keys[1]), reads_back(grown(S0), result.data, keys[1], values[1]))'],
